@@ -266,3 +266,18 @@ def base_messages(ks: t.List[Kind]) -> t.List[t.Any]:
         for m, _p in enumerate_job(ks, job):
             out.append(m)
     return out
+
+
+def big_messages() -> t.List[t.Any]:
+    """A handful of messages with one field of 65535 / 65536 / 65537 octets (3-octet lengths), cheap enough for the quick tier."""
+    out: t.List[t.Any] = []
+    res = L.LDAPResult(L.LDAPResultCode.SUCCESS, "", "", None)
+    for n in (65535, 65536, 65537, 65536 + 256):
+        out.append(L.ExtendedRequest(1, [], "1.2", b"v" * n))
+        out.append(L.SearchResultEntry(1, [], "cn=x", [L.PartialAttribute("jpegPhoto", [b"\xff" * n, b"s"])]))
+        out.append(L.BindRequest(1, [], 3, "n" * n, L.SimpleCredential("p")))
+        out.append(L.SearchRequest(1, [L.LDAPControl("1.2", False, b"c" * n)], "", L.SearchScope.BASE, L.DereferencingPolicy.NEVER, 0, 0, False, L.FilterEquality("cn", b"f" * n), ["a"]))
+        out.append(L.ExtendedResponse(1, [], res, None, b"w" * n))
+    # content of exactly 65536 octets made of many small elements
+    out.append(L.SearchResultReference(1, [], ["u" * 30] * 2048))
+    return out
